@@ -299,8 +299,15 @@ def real_differs(r):
     return r["c2m"] != r["gcc"]
 
 
-def shrink_layout(t, max_rounds=40):
-    """greedy shrinking with the *real* compilers: smallest declaration on which c2m and gcc differ"""
+def deviates(r):
+    """the freshly built c2m does not do what the model of the current code says"""
+    return r["c2m"] != r["m_c2m"]
+
+
+def shrink_layout(t, max_rounds=40, pred=None):
+    """greedy shrinking with the *real* compilers: smallest declaration on which c2m and gcc differ
+    (or, with `pred`, on which that predicate of the evaluation record holds)"""
+    pred = pred or real_differs
     cur = t
     for _ in range(max_rounds):
         cands = [c for c in G.shrink_candidates(cur)]
@@ -317,7 +324,7 @@ def shrink_layout(t, max_rounds=40):
         nxt = None
         for c in uniq:
             r = recs.get(G.to_str(c))
-            if r is not None and r["gcc"] is not None and real_differs(r):
+            if r is not None and r["gcc"] is not None and pred(r):
                 nxt = c
                 break
         if nxt is None:
@@ -405,6 +412,12 @@ def layout_process(types, origin):
     def shrink_one(r):
         # a class that is listed and has already been shrunk SHRINK_CAP times in this run is named from
         # the unshrunk declaration when that already gives the same listed name (saves compiler runs)
+        if deviates(r):
+            # c2m differs from gcc AND from the model of the current code: not one of the listed deviations
+            # (those are predicted exactly by c2mLay); minimise on "c2m != c2mLay"
+            small = shrink_layout(r["type"], pred=deviates)
+            srec = [x for x in layout_eval([small], "min") if x["decl"] == G.to_str(small)][0]
+            return small, srec
         pre = layout_signature(r["type"], r)
         if ck.is_known(pre) and shrunk_count.get(pre, 0) >= SHRINK_CAP and r["c2m"] == r["m_c2m"]:
             lay_stats["not_shrunk_listed_class"] = lay_stats.get("not_shrunk_listed_class", 0) + 1
@@ -419,6 +432,10 @@ def layout_process(types, origin):
     for r, (small, srec) in zip(differing, shrunk):
         fl = r["flags"]
         sig = layout_signature(small, srec)
+        if deviates(r) or deviates(srec):
+            # a listed finding is the deviation of the *unchanged* code, which c2mLay predicts bit for bit;
+            # anything c2mLay does not predict is new, whatever listed class it resembles
+            sig = "C08:code-deviates-from-model-of-current-code:" + sig.split(":", 1)[-1]
         lay_stats["classes"][sig] = lay_stats["classes"].get(sig, 0) + 1
         if fl.get("simple") == "1" or fl.get("nobf") == "1":
             sig += "+side-condition-holds"
@@ -433,6 +450,7 @@ def layout_process(types, origin):
                       "impl_output": {"c2m": srec["c2m"], "gcc": srec["gcc"], "c2m_rc": srec["c2m_rc"], "c2m_err": srec["c2m_err"]},
                       "spec_verdict": "sizeof/_Alignof/member placement differ from the platform compiler",
                       "model_agrees_with_code": srec["c2m"] == srec["m_c2m"],
+                      "listed_findings_are": "deviations predicted by c2mLay (model of the unchanged code): c2m == c2mLay != gcc",
                       "how_to_rerun": "cd /verif && ./check C08 --replay <this file>"},
                      what=f"layout of `{G.to_str(small)}`: c2m {srec['c2m']} vs gcc {srec['gcc']}", signature=sig)
     return recs
@@ -480,7 +498,8 @@ def boundary_decls():
     """systematic boundary cases of the bit-field placement (quick and thorough):
     (a) ordinary member M followed by a bit-field `B b:w` with bits(M) + w = bits(B) - 1 / 0 / + 1,
         alone, behind a leading char, and followed by a char;
-    (b) runs of 2 and 3 bit-fields of one declared size whose widths sum to bits(B) - 1 / 0 / + 1"""
+    (b) runs of 2 and 3 bit-fields of one declared size whose widths sum to bits(B) - 1 / 0 / + 1;
+    (c) boundary enums; (d) adjacent bit-fields of different declared sizes around either unit boundary"""
     SZ = {"char": 1, "uchar": 1, "short": 2, "ushort": 2, "int": 4, "uint": 4, "long": 8, "ulong": 8}
     ords = [(("sc", "char"), 1), (("sc", "short"), 2), (("sc", "int"), 4), (("arr", 3, ("sc", "char")), 3),
             (("arr", 5, ("sc", "char")), 5), (("arr", 3, ("sc", "short")), 6), (("arr", 7, ("sc", "char")), 7)]
@@ -519,6 +538,25 @@ def boundary_decls():
                     wb = unit - w1 - wa + d
                     if 1 <= wb <= unit:
                         add([("b", w1, True, ("sc", bt)), ("b", wa, True, ("sc", bt)), ("b", wb, True, ("sc", bt))])
+    # (d) adjacent bit-fields whose declared types differ in size: widths summing to the boundary -1/0/+1 of
+    #     either storage unit (the unchanged code deviates from gcc on some of these - listed finding #22 -
+    #     exactly as c2mLay predicts)
+    for b1 in ("uchar", "ushort", "uint", "ulong"):
+        for b2 in ("char", "short", "int", "long"):
+            u1, u2 = 8 * SZ[b1], 8 * SZ[b2]
+            if u1 == u2:
+                continue
+            for w1 in sorted({1, 4, u1 // 2 + 2, u1 - 1, u1}):
+                if not 1 <= w1 <= u1:
+                    continue
+                for tgt in (u1, u2):
+                    for d in (-1, 0, 1):
+                        w2 = tgt - w1 + d
+                        if 1 <= w2 <= u2:
+                            add([("b", w1, True, ("sc", b1)), ("b", w2, True, ("sc", b2))])
+                add([("b", w1, True, ("sc", b1)), ("b", min(10, u2), True, ("sc", b2)), ("b", 2, True, ("sc", "uchar"))])
+    add([("b", 10, True, ("sc", "ushort")), ("b", 20, True, ("sc", "uint")), ("b", 2, True, ("sc", "uchar"))])
+    add([("b", 4, True, ("sc", "char")), ("b", 10, True, ("sc", "int"))])
     # (c) enumerated types on the int / unsigned int / long boundaries: member, array element, bit-field
     #     declared type, in a union
     for en in G.ENUM_NAMES:
